@@ -7,6 +7,7 @@ CONSTANTS
   MaxTs = 8
   MaxRepl = 7
   MaxWrites = 6
+  MergeRestamp = TRUE
   NoSkew = TRUE
   ArmQuota = 0
   EnableRename = FALSE
